@@ -3,6 +3,7 @@ package c10
 // C10 generators for the typed-project and untyped-tree correspondence streams.
 
 import (
+	"os"
 	"math/rand"
 	"strconv"
 
@@ -436,6 +437,10 @@ func runC10Typed(ctx *core.Ctx) {
 }
 
 func runC10(ctx *core.Ctx) {
+	if os.Getenv("C10_ONLY") == "opts" { // development aid: the option-shape stream alone
+		runC10Opts(ctx)
+		return
+	}
 	runC10Typed(ctx)
 	runC10Tree(ctx)
 	runC10Norm(ctx)
